@@ -165,7 +165,7 @@ def conditions(tier):
 
 
 META = {
-    "bounds": {"quick": "3 call sites in 4 layouts, <=3 evaluations in every interleaving split over two tests; empty and pre-filled snapshots; 6 argument forms for re-evaluation",
+    "bounds": {"quick": "3 call sites in 4 layouts, <=3 evaluations in every interleaving split over two tests; empty and pre-filled snapshots; 6 argument forms for re-evaluation with fix/update approved or not; two byte-identical test files with different observations",
                "thorough": "<=4 evaluations for empty snapshots, <=3 for pre-filled ones (4 did not close within 20 min per cell), 4 approval subsets"},
     "outside": "more call sites / evaluations; executing's node lookup is run for real (key (id(code), f_lasti) is concrete)",
     "assumptions": ["stub: repr of a symbolic int leaf is a name token", "per-site expectation = the documented model of C05 (model_minmax / model_in) applied to the site's own observations"],
